@@ -308,6 +308,81 @@ func runCase(s *server, u upstream.Upstream, c *caseT) {
 	}
 }
 
+// sharedBufferPhase: ExchangeContext "MUST NOT keep or modify m", so callers may
+// share one packed query between concurrent calls. 8 goroutines share ONE query
+// buffer against an always-TC UDP side; a watcher samples the buffer while the
+// calls run. Oracle: the buffer never differs from the original, every query the
+// TCP listener receives is byte-identical to it, every returned reply carries
+// the caller's ID.
+func sharedBufferPhase(s *server, u upstream.Upstream) {
+	seq := int(seqCtr.Add(1))
+	c := &caseT{Seq: seq, Flags: 0x8380, Pad: 40, TCPMode: "answer", ID: 0xBEEF} // TC set
+	o := &obs{}
+	s.mu.Lock()
+	s.cases[seq] = c
+	s.obs[seq] = o
+	s.mu.Unlock()
+	q := dnsadv.Query(c.ID, seq, 99, "c17", 1)
+	orig := append([]byte(nil), q...)
+	stop := make(chan struct{})
+	var modified atomic.Int64
+	go func() {
+		for {
+			select {
+			case <-stop:
+				return
+			default:
+			}
+			if !bytes.Equal(q, orig) {
+				modified.Add(1)
+			}
+		}
+	}()
+	var wg sync.WaitGroup
+	var wrongID, foreignTCP, okN atomic.Int64
+	for g := 0; g < 8; g++ {
+		wg.Add(1)
+		go func() {
+			defer wg.Done()
+			for i := 0; i < 150; i++ {
+				ctx, cancel := context.WithTimeout(context.Background(), 5*time.Second)
+				rb, err := u.ExchangeContext(ctx, q)
+				cancel()
+				rep.Eval(1)
+				if err != nil || rb == nil {
+					continue
+				}
+				okN.Add(1)
+				if binary.BigEndian.Uint16(*rb) != c.ID {
+					wrongID.Add(1)
+				}
+				pool.ReleaseBuf(rb)
+				o.mu.Lock()
+				if o.tcpQuery != nil && !bytes.Equal(o.tcpQuery[2:], orig[2:]) {
+					foreignTCP.Add(1)
+				}
+				o.mu.Unlock()
+			}
+		}()
+	}
+	wg.Wait()
+	close(stop)
+	wit := map[string]any{"scenario": "8 concurrent calls share one query buffer; UDP always answers TC", "calls_ok": okN.Load(), "buffer_seen_modified": modified.Load(), "replies_with_wrong_id": wrongID.Load(), "tcp_queries_differing_from_callers_query": foreignTCP.Load()}
+	switch {
+	case modified.Load() > 0:
+		rep.Violation("query-buffer-modified-during-call", "the caller's query buffer was observed modified while ExchangeContext calls were running on it (shared by concurrent callers)", wit)
+	case foreignTCP.Load() > 0:
+		rep.Violation("tcp-query-differs-shared-buffer", "the query retried over TCP is not the caller's query", wit)
+	case wrongID.Load() > 0:
+		rep.Violation("tcp-reply-id-mismatch-shared-buffer", "a returned reply carries an ID that is not the caller's", wit)
+	default:
+		rep.Count("shared_buffer_calls_ok", okN.Load())
+		if okN.Load() > 0 {
+			rep.Nontrivial("shared-buffer|tc")
+		}
+	}
+}
+
 func trunc(b []byte, n int) []byte {
 	if len(b) > n {
 		return b[:n]
@@ -402,6 +477,7 @@ func main() {
 	}
 	close(jobs)
 	wg.Wait()
+	sharedBufferPhase(servers["answer"], ups["answer"])
 	for _, u := range ups {
 		u.Close()
 	}
